@@ -45,7 +45,7 @@ theorem InvB.preserved {cfg : Cfg} {s s' : State} {l : Label} (hI : InvB s)
     kind_startupCleanup_iff] at *)
   all_goals (try subst_vars)
   all_goals (try dsimp only)
-  all_goals (first | grind [upd, Root.kind, TS.active, TS.live, TS.ended, TS.isStopping, watcherLike, failTS, cancelSubs, cancelRoots, Pend.ts] | (trace_state; sorry))
+  all_goals (grind [upd, Root.kind, TS.active, TS.live, TS.ended, TS.isStopping, watcherLike, failTS, cancelSubs, cancelRoots, Pend.ts])
 
 end Kopf.C20
 
